@@ -1492,7 +1492,7 @@ func (e *Exec) flushSession(sess *MSession, at time.Time, cands map[*MSession]ma
 			}
 			want := *st.Pose
 			ots := &timestamppb.Timestamp{Seconds: st.TSec, Nanos: st.TNano}
-			e.expectRelay(s, mc.Pid, TPoseBcast, "C11,C02", fmt.Sprintf("pose update of entity %d", eid), func(r Rx) string {
+			e.expectRelay(s, mc.Pid, TPoseBcast, "C11,C02,C01", fmt.Sprintf("pose update of entity %d", eid), func(r Rx) string {
 				b := r.M.(*hagallpb.EntityUpdatePoseBroadcast)
 				if b.EntityId != eid {
 					return "other entity"
